@@ -73,6 +73,13 @@ func ruleFailedLookupDeref(c *Ctx, rule string) {
 				reach := map[*ssa.BasicBlock]bool{}
 				walkFeasible(ft, pctx{}, func(e edge) bool { return e.to() == src || boolEdge(e, okv, true) }, func(b *ssa.BasicBlock) bool { reach[b] = true; return false })
 				for _, d := range derefs {
+					// a dereference behind `v != nil` is fine whatever the lookup said
+					if condGuarded(d, func(cond ssa.Value, truth bool) bool {
+						x, isEq, okn := nilTest(cond)
+						return okn && x == ssa.Value(val) && isEq != truth
+					}) {
+						continue
+					}
 					if reach[d.Block()] {
 						bad = fmt.Sprintf("%s is dereferenced at %s on a path where the lookup at %s failed", val.Name(), shortPos(c.P, d), shortPos(c.P, in))
 					}
